@@ -47,11 +47,6 @@ structure Genesis where
   vals : List GVal
   deriving Repr, Inhabited
 
-structure Env where
-  ante : AnteFacts
-  limiter : LimiterCfg
-  deriving Repr
-
 namespace App
 
 def seqOf (incs : List (Signer × Nat)) (sg : Signer) : Nat :=
@@ -70,7 +65,7 @@ def runTx (env : Env) (s : App) (incs : List (Signer × Nat)) (tx : Tx) : TxR ×
     | some e => (.err e, s, incs)
     | none =>
       let incs := seqBump incs tx.signer
-      match handleList s tx.signer tx.msgs with
+      match handleList env.lim s tx.signer tx.msgs with
       | .ok s' => (.ok, s', incs)
       | .err e => (.err e, s, incs)
       | .unknown => (.unknown, s, incs)
@@ -87,7 +82,7 @@ def block (env : Env) (s : App) (b : Block) : Except Halt (BlockOut × App) :=
   match slashingBegin b.votes s with
   | .error h => .error h
   | .ok s =>
-    match s.poaBegin with
+    match poaBegin env.lim s with
     | .error h => .error h
     | .ok s =>
       let (txrs, s) := runTxs env b.txs s [] []
